@@ -48,6 +48,8 @@ type RSAMat struct {
 	K       *ref.KSRSA
 	Pad     int  // extra leading zero bytes given to the constructors (modulus, d, p, q)
 	PubOnly bool // crafted modulus of the wanted bit length: public key only
+	// Optional: a key shape the constructors may legitimately refuse (then it is left out of the catalogue)
+	Optional bool
 }
 
 // craftedBits: modulus sizes that are not multiples of 8 / sit next to a byte boundary, served by crafted
@@ -98,10 +100,20 @@ func rsaShapes(bits, e int, th bool) []RSAMat {
 		}
 		return out
 	})
-	if th || len(all) < 2 {
-		return all
+	sel := all
+	if !th && len(all) >= 2 {
+		sel = []RSAMat{all[0], all[len(all)-1]}
 	}
-	return []RSAMat{all[0], all[len(all)-1]}
+	if bits == 2048 && e == 65537 {
+		// primes of different byte lengths (1088 / 960 bits), either one the long one: Optional = a constructor that
+		// refuses such a key is not judged
+		ub := cached("rsa-unbalanced/2048", func() []RSAMat {
+			return []RSAMat{{Shape: "unbalanced-p-longer", K: ref.KSRSAUnbalanced(2048, true), Optional: true},
+				{Shape: "unbalanced-q-longer", K: ref.KSRSAUnbalanced(2048, false), Optional: true}}
+		})
+		sel = append(append([]RSAMat{}, sel...), ub...)
+	}
+	return sel
 }
 
 // RSAShortDExponent returns a public exponent for which fixed key 0 of the given size has a private
@@ -396,6 +408,9 @@ func init() {
 				if pp.PublicExponent() == 65537 && !m.PubOnly {
 					// the signer (and NewPrivateKey's self check) supports e = 65537 only: other exponents: public key only
 					k, err = rsassapkcs1.NewPrivateKey(pub, rsassapkcs1.PrivateKeyValues{P: sb(pad(m.K.P, m.Pad)), Q: sb(pad(m.K.Q, m.Pad)), D: sb(pad(m.K.D, m.Pad))})
+					if err != nil && m.Optional {
+						continue
+					}
 					if err != nil {
 						return nil, err
 					}
@@ -463,6 +478,9 @@ func init() {
 				if pp.PublicExponent() == 65537 && !m.PubOnly {
 					// the signer (and NewPrivateKey's self check) supports e = 65537 only: other exponents: public key only
 					k, err = rsassapss.NewPrivateKey(pub, rsassapss.PrivateKeyValues{P: sb(pad(m.K.P, m.Pad)), Q: sb(pad(m.K.Q, m.Pad)), D: sb(pad(m.K.D, m.Pad))})
+					if err != nil && m.Optional {
+						continue
+					}
 					if err != nil {
 						return nil, err
 					}
